@@ -170,6 +170,8 @@ def decorator_text(case, i, ind):
         return ["%s%s = %r" % (ind, name, desc),
                 "%s@icontract.require(" % ind, "%s    %s," % (ind, lam), "%s    %s," % (ind, name),
                 "%s    a_repr=REPRS[%d])" % (ind, i)]
+    if layout == 9:       # keyword form, the description - with characters outside ASCII - before the condition on one line
+        return ["%s@icontract.require(description=%r, condition=%s, a_repr=REPRS[%d])" % (ind, desc, lam, i)]
     raise ValueError(layout)
 
 
@@ -499,7 +501,7 @@ def main():
     plain = bool(payload.get("plain"))
     src = render_module(cases)
     path = os.path.join(os.getcwd(), "icv_expr_%d.py" % os.getpid())
-    with open(path, "w") as fh:
+    with open(path, "w", encoding="utf-8") as fh:
         fh.write(src)
     spec = importlib.util.spec_from_file_location("icv_expr_%d" % os.getpid(), path)
     mod = importlib.util.module_from_spec(spec)
